@@ -12,6 +12,8 @@ def build_graph(fggs, spec, tag):
         g.add_node(v)
     es = []
     for k, (name, att, nt) in enumerate(spec['edges']):
+        if name != 'X' and len(name) == 1:
+            name = name + '_' + ''.join(LABELS[spec['nodes'][i]] for i in att)      # one label per (name, type): no name clashes
         e = fggs.Edge(fggs.EdgeLabel(name, [ns[i].label for i in att], is_nonterminal=bool(nt), is_terminal=not nt), [ns[i] for i in att], id=f'{tag}e{k}')
         g.add_edge(e)
         es.append(e)
